@@ -424,6 +424,8 @@ def h_tn(F, R):
         for x in walk_all(b):
             if x.get("k") == "Call" and x["fn"].get("name") == "try_from" and "TopicName" in (x["fn"].get("self_ty") or ""):
                 n += 1
+            elif x.get("k") == "Zst" and (x.get("fn") or {}).get("name") == "try_from" and "TopicName" in (x["fn"].get("self_ty") or ""):
+                n += 1          # the constructor passed as a function value (`.and_then(TopicName::try_from)`)
     R.floor("H-tn-paths", "TopicName::try_from sites on decode paths", n, 5)
     R.ok("H-tn-paths", "sites", n)
 
